@@ -319,6 +319,14 @@ def opaque_frames(df, F):
         "union-ordered": (lambda: df.union(df).orderBy("a", "b", "s"), "CSeq"),
         "intersect": (lambda: df.select("a").intersect(df.select("b")), "CBag"),
         "exceptAll": (lambda: df.exceptAll(df.where(F.col("a") == 1)), "CBag"),
+        # names whose spelling differs from the normalised identifier (mixed/upper case, a space): every action, also a
+        # show() that prints no row, must present them as collect()/toPandas()/toArrow() do
+        "mixed-alias": (lambda: df.select(F.col("a").alias("EmpId"), F.col("b").alias("Store Id"), "s"), "CBag"),
+        "mixed-toDF-ordered": (lambda: df.toDF("Foo", "BAR", "s").orderBy("Foo", "BAR", "s"), "CSeq"),
+        "mixed-rename-ordered": (lambda: df.withColumnRenamed("a", "Aa").orderBy("Aa", "b", "s"), "CSeq"),
+        "mixed-create": (lambda: df.session.createDataFrame([tuple(r) for r in df.collect()],
+                                                            "foo bigint, BAR bigint, mixedCase string"), "CBag"),
+        "mixed-where-empty": (lambda: df.select(F.col("a").alias("EmpId"), F.col("s").alias("sS")).where(F.col("EmpId") > 1000), "CBag"),
     }
 
 
@@ -337,7 +345,7 @@ def run_opaque(ctx, session, F, rnd, n_passes, devs, order_dev):
             if base[0] != "collect":
                 continue      # C02/C06/C07 judge whether the program itself runs
             _, cn, cr = base
-            acts = action_list(rnd, len(cr))
+            acts = action_list(rnd, len(cr), force_show0=name.startswith("mixed"))
             first = None
             for p in range(n_passes):
                 order = list(acts) + [("collect",)]
@@ -378,12 +386,14 @@ def run_opaque(ctx, session, F, rnd, n_passes, devs, order_dev):
     return n
 
 
-def action_list(rnd, size):
+def action_list(rnd, size, force_show0=False):
     ns = [0, 1, 2, size + 3]
     acts = [("count",), ("isEmpty",), ("head",), ("first",), ("toPandas",), ("toArrow",)]
     acts += [("headN", n) for n in ns]
     acts += [("limitN", n) for n in rnd.sample(ns, 2)]
     sn = rnd.sample(ns, 2)
+    if force_show0 and 0 not in sn:
+        sn[0] = 0
     acts += [("show", n) for n in sn]
     acts.append(rnd.choice([("showD",), ("showT", rnd.choice(ns))]))
     return acts
